@@ -1,7 +1,8 @@
 (* Reader-level fault classes (C05): a head that is wider than the value needs is NonMinimal, an
    indefinite-length head is a range error, a wrong major type is BadMajor - for every value and every
    continuation of the input.  All are "every other cbor error" of the status mapping (InvalidCbor). *)
-From Ctap Require Import Base Schema Wire Typed CborItem WireP SkipP.
+From Ctap Require Import Base Schema Wire Utf8 Typed CborItem WireP SkipP.
+Local Open Scope string_scope.
 From Coq Require Import Lia ZifyBool.
 Local Open Scope list_scope.
 Local Open Scope Z_scope.
@@ -85,4 +86,124 @@ Theorem wrong_major_rejected : forall maj b r, b / 32 <> maj ->
 Proof.
   intros maj b r H. unfold raw_u8, raw_u32, raw_u64, expect_major.
   destruct (b / 32 =? maj) eqn:E; [lia|]. repeat split.
+Qed.
+
+(* ---------------------------------------------------------------- a value of another data type (C05) *)
+(* the major types on which the decoder of a type can succeed *)
+Fixpoint first_majors (e : env) (fuel : nat) (t : ty) : list Z :=
+  match fuel with
+  | O => []
+  | S k =>
+      match t with
+      | TU8 | TU16 | TU32 | TU64 | TUsize => [0]
+      | TI8 | TI32 => [0; 1]
+      | TBool | TUnit => [7]
+      | TBytesRef | TBytesCap _ | TByteArrRef _ => [2]
+      | TStrRef | TStrCap _ => [3]
+      | TVec _ _ => [4]
+      | TOpt u => 7 :: first_majors e k u
+      | TNamed name =>
+          match lookup e name with
+          | Some (DStruct _ _ _ _) => [5]
+          | Some (DStrEnum _ _ _ _) => [3]
+          | Some (DRepr _ _ _ _) => [0]
+          | Some (DCustom kind _ _ _) =>
+              if String.eqb kind "webauthn::Icon" then [3]
+              else if String.eqb kind "webauthn::FilteredPublicKeyCredentialParameters" then [4]
+              else if String.eqb kind "ctap2::AttestationFormatsPreference" then [4]
+              else if String.eqb kind "ext::EcdhEsHkdf256PublicKey" then [5]
+              else []
+          | _ => []
+          end
+      | _ => []
+      end
+  end.
+
+Definition rejected_not_missing {A} (x : res A) : Prop :=
+  match x with Err ce => ce <> SerdeMissingField | Ok _ => False | _ => True end.
+
+Lemma raw_wrong_major : forall maj b r, b / 32 <> maj ->
+  raw_u8 maj (b :: r) = Err BadMajor /\ raw_u32 maj (b :: r) = Err BadMajor /\ raw_u64 maj (b :: r) = Err BadMajor.
+Proof. exact wrong_major_rejected. Qed.
+
+Lemma raw_u32_never_missing : forall maj i, match raw_u32 maj i with Err ce => ce <> SerdeMissingField | _ => True end.
+Proof.
+  intros maj i. unfold raw_u32, expect_major. destruct i as [|b i]; cbn [bind]; [discriminate|].
+  destruct (b / 32 =? maj); cbn [bind]; [|discriminate].
+  repeat match goal with |- context [if ?c then _ else _] => destruct c end; try exact I; try discriminate;
+    unfold take; match goal with |- context [blen ?l <? ?n] => destruct (blen l <? n) end; cbn [bind]; try discriminate;
+    match goal with |- context [if ?c then _ else _] => destruct c end; try exact I; discriminate.
+Qed.
+
+(* a member whose value starts with a major type the member's type cannot start with is rejected, and
+   never as a missing parameter: the status is InvalidCbor.  (246 = null is the one simple value an optional
+   member accepts; the property excludes it.) *)
+Theorem wrong_type_rejected : forall e k t b r,
+  ~ In (b / 32) (first_majors e k t) -> 0 <= b < 256 ->
+  rejected_not_missing (dec e k t (b :: r)).
+Proof.
+  intros e. induction k as [|k IH]; intros t b r Hn Hb; [exact I|].
+  cbn [first_majors] in Hn.
+  destruct t as [ | | | | | | | | | |n|n|n|n|n| | |n|u n|u|u|name|name|name]; try exact I.
+  - (* u8 *) cbn [dec]. rewrite (proj1 (raw_wrong_major 0 b r ltac:(intros E; apply Hn; left; symmetry; exact E))). cbn. discriminate.
+  - cbn [dec]. unfold raw_u16. rewrite (proj1 (proj2 (raw_wrong_major 0 b r ltac:(intros E; apply Hn; left; symmetry; exact E)))). cbn. discriminate.
+  - cbn [dec]. rewrite (proj1 (proj2 (raw_wrong_major 0 b r ltac:(intros E; apply Hn; left; symmetry; exact E)))). cbn. discriminate.
+  - cbn [dec]. rewrite (proj2 (proj2 (raw_wrong_major 0 b r ltac:(intros E; apply Hn; left; symmetry; exact E)))). cbn. discriminate.
+  - cbn [dec]. rewrite (proj2 (proj2 (raw_wrong_major 0 b r ltac:(intros E; apply Hn; left; symmetry; exact E)))). cbn. discriminate.
+  - (* i8 *) cbn [dec]. unfold dec_i8. cbn [peek_major bind].
+    destruct (b / 32 =? 0) eqn:E0; [exfalso; apply Hn; left; lia|].
+    destruct (b / 32 =? 1) eqn:E1; [exfalso; apply Hn; right; left; lia|]. cbn. discriminate.
+  - (* i32 *) cbn [dec]. unfold dec_i32. cbn [peek_major bind].
+    destruct (b / 32 <=? 1) eqn:E0; [|cbn; discriminate].
+    exfalso. apply Hn. assert (0 <= b / 32) by (Z.div_mod_to_equations; lia).
+    destruct (Z.eq_dec (b / 32) 0) as [->|]; [left; reflexivity|right; left; lia].
+  - (* bool *) cbn [dec]. unfold dec_bool, take.
+    replace (blen (b :: r) <? 1) with false by (rewrite blen_cons; pose proof (blen_nonneg r); lia).
+    change (Z.to_nat 1) with 1%nat. cbn [firstn skipn bind].
+    destruct b as [|p|p]; try (cbn; discriminate).
+    repeat (destruct p as [p|p|]; try (cbn; discriminate)); exfalso; apply Hn; left; reflexivity.
+  - (* unit *) cbn [dec dec_unit].
+    destruct b as [|p|p]; try (cbn; discriminate).
+    repeat (destruct p as [p|p|]; try (cbn; discriminate)); exfalso; apply Hn; left; reflexivity.
+  - (* &Bytes *) cbn [dec]. unfold dec_bytes_raw. cbn [peek_major bind].
+    destruct (b / 32 =? 4) eqn:E4.
+    + pose proof (raw_u32_never_missing 4 (b :: r)) as N. destruct (raw_u32 4 (b :: r)) as [[x y]| | |]; cbn; try exact I; try exact N. discriminate.
+    + destruct (b / 32 =? 2) eqn:E2; [exfalso; apply Hn; left; lia|cbn; discriminate].
+  - cbn [dec]. unfold dec_bytes_cap, dec_bytes_raw. cbn [peek_major bind].
+    destruct (b / 32 =? 4) eqn:E4.
+    + pose proof (raw_u32_never_missing 4 (b :: r)) as N. destruct (raw_u32 4 (b :: r)) as [[x y]| | |]; cbn; try exact I; try exact N. discriminate.
+    + destruct (b / 32 =? 2) eqn:E2; [exfalso; apply Hn; left; lia|cbn; discriminate].
+  - cbn [dec]. unfold dec_bytes_raw. cbn [peek_major bind].
+    destruct (b / 32 =? 4) eqn:E4.
+    + pose proof (raw_u32_never_missing 4 (b :: r)) as N. destruct (raw_u32 4 (b :: r)) as [[x y]| | |]; cbn; try exact I; try exact N. discriminate.
+    + destruct (b / 32 =? 2) eqn:E2; [exfalso; apply Hn; left; lia|cbn; discriminate].
+  - (* &str *) cbn [dec]. unfold dec_str_raw. rewrite (proj1 (proj2 (raw_wrong_major 3 b r ltac:(intros E; apply Hn; left; symmetry; exact E)))). cbn. discriminate.
+  - cbn [dec]. unfold dec_str_raw. rewrite (proj1 (proj2 (raw_wrong_major 3 b r ltac:(intros E; apply Hn; left; symmetry; exact E)))). cbn. discriminate.
+  - (* Vec *) cbn [dec]. rewrite (proj1 (proj2 (raw_wrong_major 4 b r ltac:(intros E; apply Hn; left; symmetry; exact E)))). cbn. discriminate.
+  - (* Option *)
+    assert (Hb' : b <> 246).
+    { intros ->. apply Hn. left. reflexivity. }
+    assert (Hu : rejected_not_missing (dec e k u (b :: r))).
+    { apply IH; [|exact Hb]. intros Hin. apply Hn. right. exact Hin. }
+    cbn [dec].
+    assert (G : rejected_not_missing ('(v, r0) <- dec e k u (b :: r) ;; Ok (VSome v, r0))).
+    { destruct (dec e k u (b :: r)) as [[v r0]| | |]; cbn in *; auto. }
+    destruct b as [|p|p]; try exact G.
+    repeat (destruct p as [p|p|]; try exact G). congruence.
+  - (* named *)
+    cbn [dec]. destruct (lookup e name) as [d|]; [|exact I].
+    destruct d as [ix sr de fs|sr de into tf|repr sr de vs|sr vs|kind sr de params|]; try exact I.
+    + destruct ix; rewrite (proj1 (proj2 (raw_wrong_major 5 b r ltac:(intros E; apply Hn; left; symmetry; exact E)))); cbn; discriminate.
+    + unfold dec_str_raw. rewrite (proj1 (proj2 (raw_wrong_major 3 b r ltac:(intros E; apply Hn; left; symmetry; exact E)))). cbn. discriminate.
+    + destruct (String.eqb repr "u8"); [|exact I].
+      rewrite (proj1 (raw_wrong_major 0 b r ltac:(intros E; apply Hn; left; symmetry; exact E))). cbn. discriminate.
+    + destruct (String.eqb kind "webauthn::Icon").
+      { unfold dec_str_raw. rewrite (proj1 (proj2 (raw_wrong_major 3 b r ltac:(intros E; apply Hn; left; symmetry; exact E)))). cbn. discriminate. }
+      destruct (String.eqb kind "webauthn::FilteredPublicKeyCredentialParameters").
+      { rewrite (proj1 (proj2 (raw_wrong_major 4 b r ltac:(intros E; apply Hn; left; symmetry; exact E)))). cbn. discriminate. }
+      destruct (String.eqb kind "ctap2::AttestationFormatsPreference").
+      { rewrite (proj1 (proj2 (raw_wrong_major 4 b r ltac:(intros E; apply Hn; left; symmetry; exact E)))). cbn. discriminate. }
+      destruct (String.eqb kind "ext::EcdhEsHkdf256PublicKey"); [|exact I].
+      unfold dec_cose_ecdh, dec_rawkey.
+      rewrite (proj1 (proj2 (raw_wrong_major 5 b r ltac:(intros E; apply Hn; left; symmetry; exact E)))). cbn. discriminate.
 Qed.
